@@ -123,9 +123,10 @@ CLAIMS = {
              '(upload on/off), then a third one (edit reverted or not, any download mode), optionally aborted by a failing step (quick: package steps) and repeated with any download mode: after every completed invocation '
              'each package that was produced, downloaded or declared up to date equals the purely local clean build of that project state, and with identical recipes at another location and --download=yes no build or package step is executed. '
              '(3) Forced / selective modes: the second invocation with --download=forced | forced-deps | forced-fallback | packages=lib | packages=^app$ after any edit, the third with any of the 8 modes (quick: yes or the same): a forced invocation may fail, '
-             'whatever completed equals the local build, identical recipes elsewhere + forced / forced-fallback succeed without a build step.',
+             'whatever completed equals the local build, identical recipes elsewhere + forced / forced-fallback succeed without a build step. '
+             '(4) The value LocalBuilder._getFingerprint mixes into the Build-Id changes with the fingerprint output iff the step is fingerprinted and with the workspace location iff it is the package step of a non-relocatable package (all 8 flag combinations).',
         design_ref='DESIGN.md section 4, C07',
-        note='Trusted: SHA-1 injectivity, the script model. Outside: live-build-id prediction and the restart after a wrong prediction (seeded change C07-m2 is not detected), --download-layer, '
+        note='Trusted: SHA-1 injectivity, the script model. Outside: live-build-id prediction and the restart after a wrong prediction (seeded changes C07-m2, C07-m6 are not detected), --download-layer, '
              'other transports, fingerprint script execution, emulated host fingerprints.'),
     'C11': dict(
         engine='X+Z',
